@@ -16,7 +16,24 @@ def rlp_len_prefix(n, off):
     return bytes([off + 55 + len(lb)]) + lb
 
 
+class Raw:
+    """an already-encoded RLP item"""
+
+    def __init__(self, b):
+        self.b = b
+
+
+def nest_bytes(depth):
+    """RLP encoding of [[[…[]…]]] nested `depth` times, built without recursion"""
+    x = b"\xc0"
+    for _ in range(depth):
+        x = rlp_len_prefix(len(x), 0xC0) + x
+    return Raw(x)
+
+
 def rlp_enc(x):
+    if isinstance(x, Raw):
+        return x.b
     if isinstance(x, (bytes, bytearray)):
         x = bytes(x)
         if len(x) == 1 and x[0] < 0x80:
@@ -155,13 +172,15 @@ def valid_request(rng, command=None, big=False):
 
 # ------------------------------------------------------------------ mutation matrix
 MUT_VALUES = [None, True, False, 0, -1, 1, 5, 2 ** 32 - 1, 2 ** 32, 2 ** 64 - 1, 2 ** 64, 5.0, 5.5, float("nan"),
-              "", "zz", "abc", "ab cd", " abcd", "a b", "AB", "0x" + "ab" * 32, "ab" * 15, "ab" * 16, "ab" * 17,
+              "", "zz", "abc", "ab cd", " abcd", "a b", "AB", "0x" + "ab" * 32, "0x" + "ab" * 16, "0X" + "ab" * 16, "0x" + "ab" * 31, "0x", "0xab", "ab" * 15, "ab" * 16, "ab" * 17,
               "ab" * 31, "ab" * 32, "ab" * 33, [], [[]], [""], ["ab"], {}, {"a": 1}, "legacy", "segwit", "Legacy",
               "m/44'/0'/0'/0/0", "m/44'/0'/0'/0", "m/44'/0'/0'/0/0/0", "m/44'/0'/0'/0/2147483648", "m/44'/0'/0'/0/-1",
               "m/٤٤'/0'/0'/0/0", "m/44''/0'/0'/0/0", "m//0'/0'/0/0", "44'/0'/0'/0/0", "m/44'/0'/0'/0/0'",
               "version", "sign", "nope", 2147483647, 2147483648, 4294967295, 4294967296, 18446744073709551615,
               18446744073709551616]
 ABSENT = object()
+# always tried, even when the matrix is sampled
+PRIORITY = [None, "", "zz", [], {}, True, -1, 2 ** 32, "0x" + "ab" * 16, "0x" + "ab" * 32, "ab cd", 5.0]
 
 
 def paths_of(v, prefix=()):
@@ -202,7 +221,7 @@ def mutations(req, rng, per_path=None, extra_values=()):
             continue
         choices = [ABSENT] + vals
         if per_path is not None:
-            choices = [ABSENT] + rng.sample(vals, min(per_path, len(vals)))
+            choices = [ABSENT] + PRIORITY + rng.sample(vals, min(per_path, len(vals)))
         for val in choices:
             yield path, ("<absent>" if val is ABSENT else val), set_path(req, path, val)
     # extra keys
